@@ -53,18 +53,37 @@ Inductive kind :=
 
 Definition slot_resp (i : nat) (c : bool) : response := {| r_id := N.of_nat i; r_complete := c |}.
 
+(* what the backend call (next) of an attempt returns: a Response pointer and an error *)
+Definition call_result := (option response * option error)%type.
+
+(* processConcurrentCall while the budget context is alive: exactly ONE message per call.
+   err != nil is tested first (the response that came with it is dropped), then the nil
+   result (errNullResult), otherwise the response goes to the results channel. *)
+Definition process_call (res : call_result) : ev :=
+  match res with
+  | (_, Some e) => Fail e
+  | (None, None) => Fail ENull
+  | (Some r, None) => Res r
+  end.
+
+(* what the stub backend call of slot i returns once it is let go (None: not before its
+   context is done) *)
+Definition kind_result (i : nat) (k : kind) : option call_result :=
+  match k with
+  | KComplete => Some (Some (slot_resp i true), None)
+  | KIncomplete => Some (Some (slot_resp i false), None)
+  | KError => Some (None, Some (EAttempt (N.of_nat i)))
+  | KEmpty => Some (None, None)
+  | KSilent => None
+  | KIncompleteErr => Some (Some (slot_resp i false), Some (EAttempt (N.of_nat i)))
+  | KCompleteErr => Some (Some (slot_resp i true), Some (EAttempt (N.of_nat i)))
+  end.
+
 (* the message attempt i delivers when it is released before the budget expires *)
 Definition slot_events (kinds : list kind) (i : nat) : list ev :=
   match nth_error kinds i with
-  | Some KComplete => [Res (slot_resp i true)]
-  | Some KIncomplete => [Res (slot_resp i false)]
-  | Some KError => [Fail (EAttempt (N.of_nat i))]
-  | Some KEmpty => [Fail ENull]
-  (* processConcurrentCall tests err != nil first: the error is the attempt's one message,
-     the response that came with it is dropped *)
-  | Some KIncompleteErr => [Fail (EAttempt (N.of_nat i))]
-  | Some KCompleteErr => [Fail (EAttempt (N.of_nat i))]
-  | _ => []
+  | Some k => match kind_result i k with Some res => [process_call res] | None => [] end
+  | None => []
   end.
 
 Definition is_silent (k : kind) : bool := match k with KSilent => true | _ => false end.
@@ -83,6 +102,17 @@ Definition events (kinds : list kind) (order : list nat) : list ev :=
    still held back: the remaining iterations are consumed by ctx.Done() *)
 Definition events_parent (n : nat) (kinds : list kind) (order : list nat) (k : nat) : list ev :=
   (firstn k (arrivals kinds order) ++ repeat ParentDone n)%list.
+
+(* the slot whose answer wins: the first one in arrival order whose backend call returns a
+   complete response without an error *)
+Fixpoint first_complete_slot (kinds : list kind) (order : list nat) : option nat :=
+  match order with
+  | [] => None
+  | i :: rest => match nth_error kinds i with
+                 | Some KComplete => Some i
+                 | _ => first_complete_slot kinds rest
+                 end
+  end.
 
 Definition run_scenario (n : nat) (kinds : list kind) (order : list nat) (parent : option nat) : result :=
   match parent with
@@ -126,6 +156,13 @@ Fixpoint spawn (n : nat) (r : request) : list request :=
   | S m => let '(c, r') := clone_request r in c :: spawn m r'
   end.
 
+(* the caller's own request after the n CloneRequest calls *)
+Fixpoint caller_after (n : nat) (r : request) : request :=
+  match n with
+  | O => r
+  | S m => caller_after m (snd (clone_request r))
+  end.
+
 (* ---- the goroutine/channel layer: Common/Fanout.v instantiated for this middleware ----
    One worker per attempt; results travel on the payload channel, errors (and
    errNullResult) on the failure channel, both of capacity n = ConcurrentCalls; an attempt
@@ -148,4 +185,12 @@ Definition sys_step (n : nat) (cerr : error) (idle : bool) :=
 
 (* what the collector returns, from the messages it dequeued (idle iterations change
    neither the response nor the error variable) *)
+(* the message a worker of the schedule layer holds after its backend call returned *)
+Definition msg_of_call (res : call_result) : msg :=
+  match res with
+  | (_, Some e) => MFail e
+  | (None, None) => MFail ENull
+  | (Some r, None) => MRes r
+  end.
+
 Definition outcome (got : list msg) : result := middleware (List.length got) (map ev_of got).
